@@ -366,7 +366,7 @@ class FetchStream(Stream):
                     continue
                 o, rq, res = run_step(fp, master, sources, sorted(env.items()), step["diff"], step["track"])
                 obs.append(o)
-                reqs.append(rq)
+                reqs.append(None if step.get("impl_only") else rq)     # impl_only: judged by the oracle alone (object identity matters)
                 results.append(res)
         self.stash[self.ckey(case)] = reqs
         return obs
@@ -414,7 +414,7 @@ class FetchStream(Stream):
         unmodelled = False
         steps = self.plan(case)
         for idx, o in enumerate(impl_obs):
-            if o == ["skipped"]:
+            if o == ["skipped"] or (idx < len(steps) and steps[idx].get("impl_only")):
                 out.append(o)
                 continue
             rep = next(it)
@@ -495,7 +495,7 @@ ALTS = ["x", "y", "z"]
 # per type: (.type text or None, master defaults, good source values, bad source values)
 TYPES = {
     "words": ([None], ["1", "a b", '"b c"', "None", "Auto", "x y z"], ["2", "q", '"r s"', "None", "a b", "Auto", "1"], []),
-    "str": (["str"], ["abc", "None", "Auto", '"a b"', "x y"], ["abc", "def", '"a b"', "None", "Auto", "p q", "x y"], []),
+    "str": (["str"], ["abc", "None", "Auto", '"a b"', "x y", '""'], ["abc", "def", '"a b"', "None", "Auto", "p q", "x y", '""', '"\\\\"', '"None"'], []),
     "strings": (["strings"], ["a b", '"a b" c', "None", "Auto"], ["a b", "c", '"a b" c', "None", "Auto", "a  b"], []),
     "qstr": (["qstr"], ["a b", '"a b"', "None", "Auto"], ["a b", '"a b"', "c", "None", "Auto", "'a b'"], []),
     "path": (["path"], ["p/q", '"a b"', "None", "Auto"], ["p/q", "r", '"a b"', "None", "Auto", "p/q"], []),
@@ -549,7 +549,7 @@ def gen_master_items(rng, depth, budget, floats=False, dup=True):
         if rng.random() < 0.12:
             attrs["expert_level"] = rng.choice(["0", "1", "2", "3"])
         if rng.random() < 0.08:
-            attrs["help"] = rng.choice(['"some help"', "h"])
+            attrs["help"] = rng.choice(['"some help"', "h", '"two  blanks\tand a tab"', '" lead and trail "', '"first line\n   second line"'])
         want_scope = depth < 2 and rng.random() < (0.34 if depth == 0 else 0.28)
         if force_kind is not None:
             want_scope = force_kind == "s" and depth < 2
@@ -761,7 +761,10 @@ def render_source(items, ind=""):
 
 
 VAR_TARGETS = [["v"], ["s", "x"], ["t", "y"], ["s", "t", "z"], ["vs", "x"], ["vs", "t", "z"]]
-REF_FORMS = ["$(%s)", "$(%s)", "$(.%s)", "$%s", "x$(%s)", '"$(%s)"', "$(%s) 1"]
+REF_FORMS = ["$(%s)", "$(%s)", "$(.%s)", "$%s", "x$(%s)", '"$(%s)"', "$(%s) 1",
+             # an escaped dollar next to a reference in one word: the backslash stays in the result (it is what protects the
+             # dollar when the result is fetched again)
+             '"$(%s)/run \\$x/out"', 'pre\\$y$(%s)', '"\\$5 and $(%s)"']
 
 
 def var_target_item(rng, comps, value, disabled):
